@@ -81,7 +81,8 @@ pub fn run(o: &Opts) -> Report {
     let mut rep = Report::new(
         "C13",
         "ops on raw f64 bit patterns: exhaustive boundary set x arities 0..5 for try_from_floats, boundary^k for new_*, \
-         all evidence-number entry points, plus random bit patterns; distinct = distinct (op, bits) tuples; \
+         all evidence-number entry points, plus random bit patterns; values built directly through the enum variants \
+         (any f64 incl. NaN, infinities, negatives) x every accessor and alias vs the stored bits; distinct = distinct (op, bits) tuples; \
          non-trivial = every case (each exercises the range test or an accessor)",
     );
     let mut rng = Rng::new(o.seed);
@@ -238,6 +239,78 @@ pub fn run(o: &Opts) -> Report {
             }
             _ => {}
         }
+    }
+    // values built DIRECTLY through the public enum variants (Truth::Double(x, y), Budget::Single(x), ...): the only way to
+    // store numbers the checked constructors reject (NaN, infinities, negatives, > 1) or never produce.  The property says the
+    // accessors "return the stored numbers unchanged, panicking only for components the variant does not have" -- for EVERY
+    // stored number, compared by bits (NaN payloads, -0.0).  All arities over the boundary set (exhaustive for <= 2, every
+    // boundary value in every position of a triple) plus the random tuples of the pools above.
+    let mut vpools: Vec<Vec<u64>> = pools.iter().filter(|l| l.len() <= 3).cloned().collect();
+    for &a in BOUNDARY {
+        vpools.push(vec![a, a, a]);
+        for pos in 0..3 {
+            let mut v = vec![0x3FE0_0000_0000_0000u64; 3];
+            v[pos] = a;
+            vpools.push(v.clone());
+            v[(pos + 1) % 3] = *rng.pick(BOUNDARY);
+            vpools.push(v);
+        }
+    }
+    for l in &vpools {
+        let fl: Vec<f64> = l.iter().map(|b| f64::from_bits(*b)).collect();
+        let want = |k: usize| l.get(k).cloned();
+        if l.len() <= 2 {
+            let t = match fl.len() {
+                0 => Truth::Empty,
+                1 => Truth::Single(fl[0]),
+                _ => Truth::Double(fl[0], fl[1]),
+            };
+            rep.hist.add(format!("variant-truth{}", l.len()));
+            // every accessor (short alias, trait method, trait alias) against the stored component
+            let acc: Vec<(&str, usize, Option<f64>)> = vec![
+                ("f", 0, guard(|| t.f())),
+                ("c", 1, guard(|| t.c())),
+                ("get_frequency", 0, guard(|| t.get_frequency())),
+                ("get_confidence", 1, guard(|| t.get_confidence())),
+                ("frequency", 0, guard(|| t.frequency())),
+                ("confidence", 1, guard(|| t.confidence())),
+            ];
+            for (name, k, got) in &acc {
+                if got.map(f64::to_bits) != want(*k) {
+                    rep.fail(Failure { stream: "truth_variant".into(), what: format!("Truth accessor {}() does not return the stored number / panic exactly for a missing component", name), input: format!("Truth variant with components {:x?}", l), expected: format!("{:x?}", want(*k)), got: format!("{:x?}", got.map(f64::to_bits)), known: None });
+                }
+            }
+            let fc = guard(|| t.get_frequency_confidence());
+            let want_fc = if l.len() == 2 { Some((l[0], l[1])) } else { None };
+            if fc.map(|(a, b)| (a.to_bits(), b.to_bits())) != want_fc {
+                rep.fail(Failure { stream: "truth_variant".into(), what: "Truth::get_frequency_confidence() does not return the stored pair / panic exactly when a component is missing".into(), input: format!("Truth variant with components {:x?}", l), expected: format!("{:x?}", want_fc), got: format!("{:x?}", fc.map(|(a, b)| (a.to_bits(), b.to_bits()))), known: None });
+            }
+            add(&mut rep, format!("OpTruthVariant {}", zlist(l)), truth_out(&t), format!("Truth variant {:x?} accessors", l));
+        }
+        let b = match fl.len() {
+            0 => Budget::Empty,
+            1 => Budget::Single(fl[0]),
+            2 => Budget::Double(fl[0], fl[1]),
+            _ => Budget::Triple(fl[0], fl[1], fl[2]),
+        };
+        rep.hist.add(format!("variant-budget{}", l.len()));
+        let acc: Vec<(&str, usize, Option<f64>)> = vec![
+            ("p", 0, guard(|| b.p())),
+            ("d", 1, guard(|| b.d())),
+            ("q", 2, guard(|| b.q())),
+            ("priority", 0, guard(|| b.priority())),
+            ("duality", 1, guard(|| b.duality())),
+            ("quality", 2, guard(|| b.quality())),
+        ];
+        for (name, k, got) in &acc {
+            if got.map(f64::to_bits) != want(*k) {
+                rep.fail(Failure { stream: "budget_variant".into(), what: format!("Budget accessor {}() does not return the stored number / panic exactly for a missing component", name), input: format!("Budget variant with components {:x?}", l), expected: format!("{:x?}", want(*k)), got: format!("{:x?}", got.map(f64::to_bits)), known: None });
+            }
+        }
+        if guard(|| b.is_empty()) != Some(l.is_empty()) {
+            rep.fail(Failure { stream: "budget_variant".into(), what: "Budget::is_empty() differs from (no component stored)".into(), input: format!("Budget variant with components {:x?}", l), expected: format!("{}", l.is_empty()), got: format!("{:?}", guard(|| b.is_empty())), known: None });
+        }
+        add(&mut rep, format!("OpBudgetVariant {}", zlist(l)), budget_out(&b), format!("Budget variant {:x?} accessors", l));
     }
     // empty constructors and zero/one
     add(&mut rep, "OpTruthNew0".into(), truth_out(&Truth::new_empty()), "Truth::new_empty()".into());
